@@ -258,6 +258,10 @@ def run(rep, ctx):
         cxxrules.infinite_cutoff(rep, "R10.4")
     with rep.guard("R10.5"):
         r10_5(rep, M, "R10.5")
+    rep.rule("R10.6", "no function keeps results in module-level state or functools caches (answers do not depend on what the process analysed before)")
+    with rep.guard("R10.6"):
+        from .. import symrules as _SRms
+        _SRms.module_state(rep, ctx.model, "R10.6")
     rep.floor("R10.5", 8)
     rep.floor("R10.1", 14)
     rep.floor("R10.2", 10)
